@@ -100,6 +100,41 @@ func (o *oracle) At(p *walletkit.Point) {
 		if p.Final && usable {
 			o.final = append(o.final, cand{u, e.Type, e.Height, restored, spendable})
 		}
+		// The wallet's mempool loop lags: the transaction that created this output is still in the wallet's
+		// unconfirmed set although its block is attached, so the output is known twice (stored record with the
+		// lock of the block, pool record made when the transaction was only pending).  It is one output: with
+		// use_unconfirmed the answer must still respect the lock of the chain.
+		if p.PoolHeld[u.OutputID] {
+			c.Count("pool_held_records_checked:"+e.Type.String(), 1)
+			if !spendable {
+				c.Count("pool_held_records_locked_by_the_chain:"+e.Type.String(), 1)
+			}
+			if usableU, _ := p.W.UsableWith(u.OutputID, true); usableU && !spendable {
+				c.Violation(keyOf(e.Type, restored)+":use-unconfirmed:creating-transaction-still-in-the-wallets-pool",
+					"with use_unconfirmed the wallet hands out an output although consensus does not let it be spent in the next block: the record made while its transaction was pending (lock counted from height 0) is preferred to the stored record of the confirmed output",
+					map[string]interface{}{"output_history": s.Ix.Describe(u.OutputID, p.Best), "stored_record_valid_height": u.ValidHeight, "created_at_height": e.Height,
+						"chain_best_height": h, "earliest_height_consensus_allows_the_spend": net.EarliestSpend(ref), "wallet_answer": "ReserveParticular(use_unconfirmed) succeeded",
+						"wallet_answer_without_use_unconfirmed": map[string]interface{}{"usable": usable, "class": class}, "transition": p.Transition()})
+			}
+			if e.Type == chainkit.UVote && len(u.Vote) > 0 {
+				ids, cl := p.W.VetoSelects(u.AccountID, u.Vote, u.Amount, true)
+				c.Count("pool_held_account_level_vetoes:"+map[bool]string{true: "built", false: "refused-" + cl}[cl == ""], 1)
+				for _, id := range ids {
+					r2 := p.Best.Utxo[id]
+					if r2 == nil {
+						c.Count("pool_held_veto_selected_output_not_on_main_chain(not_judged)", 1)
+						continue
+					}
+					if !net.Spendable(r2, h+1) {
+						c.Violation("veto-selects-locked-vote-output:use-unconfirmed:creating-transaction-still-in-the-wallets-pool",
+							"an account-level veto with use_unconfirmed selects a vote output that consensus does not let be spent in the next block",
+							map[string]interface{}{"selected_output_history": s.Ix.Describe(id, p.Best), "chain_best_height": h, "earliest_height_consensus_allows_the_spend": net.EarliestSpend(r2),
+								"requested_amount": u.Amount, "transition": p.Transition()})
+						break
+					}
+				}
+			}
+		}
 	}
 	c.Count("points_checked", 1)
 }
